@@ -123,7 +123,7 @@ CLAIMED["C16"] = dict(
 CLAIMED["C18"] = dict(
     text=("Partial proof (call counts, constructors, stream info): muxOptions.unary / stream invoke exactly one of interceptor and handler, once, on every path; the StreamServerInfo built for local and for proxied streaming methods carries the method's own name and "
           "its client/server streaming flags, the UnaryServerInfo the method name; gRPC RecvMsg/SendMsg, HTTP decodeRequestArgs/SendMsg and WebSocket RecvMsg/SendMsg emit exactly one payload event per message when a stats handler is installed (the WebSocket stream is created with the mux's handler) and none when the call fails; "
-          "the stats.End event built in serveHTTP (HTTP and WebSocket branches) and serveGRPC carries the handler's error (checked on the argument of the HandleRPC call); streamGRPC.SendHeader's stats block cannot dereference a nil compressor; inPayload / outPayload carry the client flag and lengths of their arguments; on every path of serveHTTP / serveGRPC the number of stats.Begin events equals the number of stats.End events (7 return sites violate this today: known findings)."),
+          "the stats.End event built in serveHTTP (HTTP and WebSocket branches) and serveGRPC carries the handler's error (checked on the argument of the HandleRPC call); streamGRPC.SendHeader's stats block cannot dereference a nil compressor; inPayload / outPayload carry the client flag and lengths of their arguments; on every path of serveHTTP / serveGRPC that reports stats.Begin exactly one stats.End is reported, by the transport's regular End or by the early-end closure (which reports at most one End, with the error handed in); no End without a Begin (seven return sites violated this until the repair recorded in known_findings.json); the context interceptors of log.go hand the call's own method name and streaming flags to the user's function."),
     note=TRUST + "Not decided: the generated gRPC glue invoking the interceptor, event ordering across handler-driven stream calls, that installing options never changes the outcome as a two-run equivalence (only the nil-dereference instance in SendHeader).",
     ref="DESIGN.md sections 5 C18 and 10.3")
 
